@@ -46,7 +46,12 @@ META = {
         "satisfiable); without forced_ok, C19_interference_confined shows any sharing is confined to registers the input "
         "itself pre-assigned. "
         "riscv_scf.for allocation (live-ins incl. those of inner loops, loop-carried groups, reserved registers; nests of "
-        "depth one and two) is modelled and tied by correspondence and the oracle but has no theorem. Tie: the model is run next to the real "
+        "depth one and two) is modelled and tied by correspondence and the oracle; for loops only PARTIAL theorems are "
+        "proved (C19_loop_groups_partial: allocating non-overlapping loop-carried groups whose iter operand dies at the "
+        "loop and whose yield operand is a body value preserves the invariant; C19_loop_reserve_partial; "
+        "C19_loop_body_partial: the body walk under reservation re-establishes it at every body point), the end-to-end "
+        "loop theorem and loop semantics are not finished. Open known finding C19-kf-3 (yield of the induction variable, "
+        "C19_loop_yield_iv_refuted). Tie: the model is run next to the real "
         "riscv/x86 allocate_func on generated functions and the complete value->register map and final RegisterStack are "
         "compared exactly; an independent liveness/interference checker and register-machine simulation judge the real "
         "output."),
@@ -61,7 +66,7 @@ META = {
         "two in/out slots of one operation; the legalisation passes (x86-regalloc-legalize / verify-liveness) that establish "
         "the in/out contract."),
 }
-COQ_TARGETS = ["C19/Enc.vo", "C19/ProofsSem.vo", "C19/ProofsFunc.vo", "C19/ProofsRefute.vo", "Props/C19.vo"]
+COQ_TARGETS = ["C19/Enc.vo", "C19/ProofsSem.vo", "C19/ProofsFunc.vo", "C19/ProofsRefute.vo", "C19/ProofsLoop.vo", "Props/C19.vo"]
 REQ = ["C19.Model", "C19.Enc"]
 ASSUMPTIONS = [
     "the input's own register constraints are satisfiable without inserting copies: values it forces into one register "
@@ -396,6 +401,8 @@ class _Flat:
                 if o["k"] == "for":
                     bargs, body = extra
                     for b, it, y, r in zip(bargs[1:], o["iters"], o["yield"], res):
+                        if y == bargs[0]:
+                            continue      # `yield %iv` is ordinary IR, not a constraint of the input (C19-kf-3)
                         out.append([b, it, y, r])
                     go(body)
                 else:
@@ -883,7 +890,9 @@ def _gen_for(rng, env, visible, nv, dead, bounds=None, nested=None, copy_iters=0
     rng.shuffle(ycand)
     yld = []
     for pos in range(k):
-        if rng.random() < 0.2:
+        if rng.random() < 0.04:
+            yld.append(bargs[0])               # `yield %iv` (the class of C19-kf-3)
+        elif rng.random() < 0.2:
             yld.append(bargs[1 + pos])
         elif ycand:
             yld.append(ycand.pop())
@@ -989,9 +998,12 @@ def coq_expr(case):
 
 
 def known(case, res):
-    """No open known finding: C19-kf-1 (pre-assigned infinite register re-issued) and C19-kf-2 (pre-assigned
-    register not excluded) were repaired in /repo by d11e3b9 / 26a8b63 and are `fixed` entries of
-    known_findings.d/C19.json -- their witnesses are replayed and any re-occurrence is a violation."""
+    """C19-kf-1 / kf-2 are repaired (fixed entries, replayed).  Open: C19-kf-3 -- some riscv_scf.for yields its
+    own induction variable in a loop-carried position."""
+    fl = _Flat(case)
+    for o, _, extra in _all_ops(fl.ops):
+        if o["k"] == "for" and extra[0][0] in o["yield"]:
+            return "C19-kf-3"
     return None
 
 
